@@ -246,7 +246,7 @@ fn part_a(rep: &Reporter) {
         }
     });
     // random larger sequences
-    let n = rep.tier.pick(2_000usize, 60_000usize);
+    let n = rep.tier.pick(2_000usize, 1_500_000usize);
     let mut rng = SplitMix64::new(rep.seed).fork(0xC07);
     for _ in 0..n {
         let len = 1 + rng.usize(8);
@@ -363,7 +363,7 @@ fn main() {
     rep.rule("(a) all sequences of up to 3 populations of up to 3 tagged individuals over objective values {-1,0,1,+inf} (ties and duplicates included) through BestIndividualUpdate / BestIndividual::update, and (every 7th sequence x capacities {0,1,2,3,8}) through ElitistArchiveUpdate + ElitistArchiveIntoPopulation, vs reference folds (strict improvement only, tags tell which individual is held; k smallest so far as a multiset; re-insertion adds exactly the absent members); plus random longer sequences; (b) every BestIndividualUpdate observed at the step-observer hook in runs of all 21 templates (best <= every evaluated member of the current population, never worse, not replaced on a tie) and, at the end of every run, reported best == minimum value in the objective call log. distinct_nontrivial = sequences containing ties + random sequences + distinct template runs");
     rep.assume("objective call log of harness problems is complete; tags identify individuals");
     part_a(&rep);
-    let seeds = rep.tier.pick(20usize, 80usize);
+    let seeds = rep.tier.pick(20usize, 400usize);
     let mut cases = templates::cases(rep.quick(), rep.seed, seeds);
     // witness of the recorded known finding (see known_findings.json), always re-run
     cases.push(templates::Case { tmpl: templates::Tmpl::Fa, pset: 2, inst: 7, n: 1, seed: 35127, with_optimum: false, parallel: false });
